@@ -198,8 +198,24 @@ fn annotation_src(ty: &Type) -> Option<String> {
             ..
         } => None,
         Type::Any => None,
-        _ if ty.is_no_value() => None,
+        _ if !is_annotatable(ty) => None,
         _ => Some(ty.to_string()),
+    }
+}
+
+/// Can `ty` be written as a type hint that accepts the values it was
+/// inferred for? `NoValue`, `Any` and type errors anywhere inside it
+/// (e.g. `List<NoValue>` for a list of calls to a function without a
+/// return hint) stand for "unknown", so the answer is no.
+fn is_annotatable(ty: &Type) -> bool {
+    match ty {
+        Type::Any | Type::Error { .. } => false,
+        Type::Tuple(items) => items.iter().all(is_annotatable),
+        Type::Fun {
+            params, return_, ..
+        } => params.iter().all(is_annotatable) && is_annotatable(return_),
+        Type::UserDefined { args, .. } => !ty.is_no_value() && args.iter().all(is_annotatable),
+        Type::TypeParameter(_) => true,
     }
 }
 
